@@ -16,6 +16,7 @@ CONSTANTS MaxVal,       \* pixel values 0..MaxVal
           CogThetas,    \* thresholds (as <<num, den>>) for the centre of gravity
           BpKs,         \* numbers of brightest pixels
           CorrSizes,    \* frame sizes for the correlation centroider
+          RectSizes,    \* ... of which these are also explored as rectangular frames (one more column than rows)
           MaxPad,
           Emit
 
@@ -101,7 +102,7 @@ Init ==
        \/ \E k \in BpKs : mode = "bp" /\ cfg = [h |-> 3, w |-> 3, k |-> k]
        \/ \E n \in CorrSizes, pad \in 1..MaxPad, bg \in 0..1, th \in {<<0,1>>, <<1,2>>}, rect \in {0, 1} :
               \* square frames, and rectangular ones with one more column than rows (rect = 1)
-              mode = "corr" /\ cfg = [ny |-> n, nx |-> n + rect, pad |-> pad, bg |-> bg, th |-> th]
+              (rect = 1 => n \in RectSizes) /\ mode = "corr" /\ cfg = [ny |-> n, nx |-> n + rect, pad |-> pad, bg |-> bg, th |-> th]
        \/ mode = "quad" /\ cfg = [h |-> 2, w |-> 2]
 
 ChooseImage ==
